@@ -360,6 +360,15 @@ func generate(w *world, thorough bool) []*Case {
 	for _, n := range []string{"blocktxn", "block", "cmpctblock-missing", "tx"} {
 		g.families(g.t(n), cmpct, "vtcs", true)
 	}
+	// huge count x "negative" first-element length on every transaction that reaches
+	// btc.TxSize over the wire (prefilled transactions of cmpctblock, blocktxn) and NewTx
+	for _, n := range []string{"cmpctblock-wit", "cmpctblock-2pre", "cmpctblock-full", "cmpctblock-missing", "tx", "tx-wit", "block"} {
+		g.families(g.t(n), post, "p", false)
+		g.families(g.t(n), ready, "p", false)
+	}
+	for _, n := range []string{"blocktxn-wit", "blocktxn"} {
+		g.families(g.t(n), cmpct, "vp", false)
+	}
 	// block-related commands while a full-block download from this peer is in flight
 	dl := g.ctx["dl"]
 	for _, n := range []string{"blocktxn", "block", "cmpctblock-missing"} {
